@@ -22,7 +22,8 @@ EXPLANATION = ("For SortedSchedulingAlgo and RoundRobin: schedule() returns run_
                "the bisection is used exactly for continuous EVSEs; estimator dictionaries keyed by session id are only read with "
                "session ids (index domains); format_array_schedule emits one entry per network station from an array that starts at "
                "zero; amp-period conversions are dimensionally consistent; the algorithm-side feasibility checker has no shortcut "
-               "acceptance (shared with C06).")
+               "acceptance (shared with C06)."
+               ' Added in round 3: row acceptance of the feasibility oracle (shared with C06), the output entry is the computed entry itself (no repetition over several periods). Allocation-loop rules follow the working variables schedule / queue / rate_idx by name and answer ANALYSIS-ERROR when those no longer exist.')
 NOT_DECIDED = ("feasibility of the concrete numbers produced; 'never delivers more than requested' over a whole simulation; behaviour of "
                "user-supplied sort functions and estimators")
 
